@@ -55,6 +55,10 @@ def dec(j):
         (k, v), = j.items()
         if k == 'f':
             return float(v)
+        if k == 'pow10':
+            return 10 ** int(v)             # integers too long to be written out in a plan (int <-> str digit limit)
+        if k == 'rep':
+            return str(v[0]) * int(v[1])    # long repetitive strings
         if k == 'c':
             return complex(float(v[0]), float(v[1]))
         if k == 'b':
